@@ -431,7 +431,7 @@ func c11Pattern(w *fw.W, e *c11Env, st *c11State, pattern, source string, n, e2e
 		w.Count("patterns_with_prefilter_func", 1)
 	}
 	if ops.hasPrefilter() {
-		w.Count("patterns_with_prefilter", 1)
+		c11CountB(w, "patterns_with_prefilter")
 	} else if ops.info.MinLen > 0 {
 		w.Count("patterns_with_minlen_only", 1)
 	}
@@ -468,10 +468,10 @@ func c11Pattern(w *fw.W, e *c11Env, st *c11State, pattern, source string, n, e2e
 			w.Count("rejected_by_minlen", 1)
 			rejected++
 		case verifapi.RxStagePrefilter:
-			w.Count("rejected_by_prefilter", 1)
+			c11CountB(w, "rejected_by_prefilter")
 			rejected++
 		case verifapi.RxStageExact:
-			w.Count("exact_fast_path_hits", 1)
+			c11CountB(w, "exact_fast_path_hits")
 			if on.Match {
 				w.Count("exact_fast_path_matches", 1)
 			}
@@ -483,7 +483,7 @@ func c11Pattern(w *fw.W, e *c11Env, st *c11State, pattern, source string, n, e2e
 				w.Count("matches_with_group_captures", 1)
 			}
 			if ops.hasPrefilter() {
-				w.Count("matches_under_prefilter", 1)
+				c11CountB(w, "matches_under_prefilter")
 			}
 		}
 		if ops.hasPrefilter() && (stage != verifapi.RxStageRegex || off.Match) {
@@ -534,6 +534,14 @@ type c11Sizes struct {
 	genPatterns, genInputs       int // per batch / per pattern
 	crsInputs                    int
 	e2eEvery, e2eInputs, maxMini int
+}
+
+// c11CountB counts name and, in the build where ^ and $ are text anchors, name+"_no_regex_multiline_build" too.
+func c11CountB(w *fw.W, name string) {
+	w.Count(name, 1)
+	if rxBuildWrap == "(?s)" {
+		w.Count(name+"_no_regex_multiline_build", 1)
+	}
 }
 
 func c11SizesFor(t fw.Tier) c11Sizes {
@@ -619,14 +627,20 @@ func init() {
 		Assumptions: []string{
 			"Go's regexp behind the prefilter-off instance is the trusted base (C15 compares @rx with regexp itself)",
 			"which early stage decided an input (min-length guard, prefilter function, exact fast path) is read through the verif-tagged introspection export; it feeds counters and the violation class only, the verdict is the comparison of Evaluate results and TX.0-9",
-			"the default build wraps the argument in (?sm); the coraza.rule.no_regex_multiline build is not exercised",
+			"four fifths of the batches run in the default build, which wraps the argument in (?sm); one fifth in a build with the documented tag coraza.rule.no_regex_multiline ((?s) only: ^ and $ are text anchors), where the same generator and the CRS patterns reach the anchored prefilter shapes through plain ^ and $",
 		},
-		Required: []string{"patterns_gen", "patterns_crs", "patterns_with_prefilter", "rejected_by_prefilter", "matches_under_prefilter", "e2e_patterns", "e2e_matches"},
+		Required: []string{"patterns_gen", "patterns_crs", "patterns_with_prefilter", "rejected_by_prefilter", "matches_under_prefilter", "e2e_patterns", "e2e_matches",
+			"rejected_by_prefilter_no_regex_multiline_build", "exact_fast_path_hits_no_regex_multiline_build", "matches_under_prefilter_no_regex_multiline_build"},
 		Plan: func(tier fw.Tier, seed int64) []fw.Batch {
 			sz := c11SizesFor(tier)
 			bs := make([]fw.Batch, 0, sz.batches)
 			for i := 0; i < sz.batches; i++ {
 				bs = append(bs, fw.Batch{Index: i, Flavour: "plain", GOMAXPROCS: 1, TimeoutS: 3600})
+			}
+			// the build in which ^ and $ are text anchors (documented tag coraza.rule.no_regex_multiline): the
+			// anchored shapes of the prefilter and of the exact-literal fast path are reached by plain ^...$ there
+			for i := 0; i < sz.batches/4; i++ {
+				bs = append(bs, fw.Batch{Index: sz.batches + i, Flavour: "nomline", GOMAXPROCS: 1, TimeoutS: 3600})
 			}
 			return bs
 		},
